@@ -616,6 +616,7 @@ class C13(Prop):
         "the IR of each initialiser is taken from the non-const variant of the same declaration and serialised by the harness; variables, globals and sizeof of non-scalars are outside the model (X)",
         "floating point via Flocq binary32/binary64 (half carries single precision, as in the code); NaN payloads are canonicalised",
         "the asserts on mixed enum / non-enum operands and `~` on a non-integer constant are modelled as Panic and excluded from the theorem's domain by wf_expr only through reachability (the typer inserts casts); they are exercised by the correspondence run",
+        "enum values: coq/model/EnumVals.v mirrors the successor rule of parse_rootdefinition_enum and the underlying-type selection of end_enum (hand-written; the translator checks the shape of both functions, N cases compare enums of 1..4 enumerators from first values at the ends of every range); `C13_enum_values_exact` shows the values are the consecutive integers",
     ]
 
     def release_case(self, case):
@@ -638,9 +639,13 @@ class C13(Prop):
         return None
 
     def nontrivial(self, case, impl):
+        if case.split()[1:2] == ["N"]:
+            return impl.startswith("ENUM")
         return case.count(" B ") + case.count(" U ") + case.count(" C ") >= 2
 
     def kind(self, case):
+        if case.split()[1:2] == ["N"]:
+            return "enum successors " + case.split()[4 if case.split()[3] == "i" else 3]
         ir = case.split(" # ")[0]
         n = ir.count(" B ") + ir.count(" U ") + ir.count(" C ")
         return "%s nodes=%s" % (case.split(" # ")[1] if " # " in case else "?", n if n < 4 else ("4-8" if n <= 8 else "9+"))
@@ -672,9 +677,31 @@ class C10(Prop):
         "since the repair the implementation delegates to Rust's str::parse::<f64> (documented as correctly rounded); that contract is what the bit-for-bit correspondence checks",
         "inputs are valid UTF-8 (the API takes &str), so the invalid-UTF-8 string error is unreachable (utf8_ok = true)",
         "token streams are observed through preprocess() on directive-free, macro-free texts",
+        "'that value appears unchanged in the output': P cases put a literal through the parser and the exporters' printer (rssl_formatter, HLSL target) and the model lexes the printed text - it must be a literal token of the same kind and value (integers: the same value) as the source text under the reference conversion; literals folded or converted by the type checker before printing are C09's / C13's subject",
     ]
 
+    def model_input(self, case, impl):
+        # a printed literal is handed to the model together with its source text: the model lexes both
+        if case.startswith("P:") and impl.startswith("PRINT "):
+            return "%s:%s" % (case.strip(), impl.split()[1])
+        return case
+
+    def comparable(self, case, impl, model):
+        if case.startswith("P:"):
+            return impl.startswith("PRINT ") and model is not None and not model.startswith("NOT-A-LITERAL") and not model.startswith("PARSE-ERROR")
+        return True
+
     def oracle(self, case, impl, model=None):
+        if case.startswith("P:"):
+            if impl.startswith("PANIC"):
+                return "parser or printer aborted on a literal: " + impl
+            if model is not None and model.startswith("VALUE-CHANGED"):
+                try:
+                    a, b = bytes.fromhex(case.strip()[2:]).decode("latin-1"), bytes.fromhex(impl.split()[1]).decode("latin-1")
+                except (ValueError, IndexError):
+                    a, b = case, impl
+                return "literal %r is printed as %r, which is another value (%s)" % (a, b, model[14:200])
+            return None
         try:
             data = bytes.fromhex(case.strip())
         except ValueError:
@@ -726,9 +753,13 @@ class C10(Prop):
         return None
 
     def nontrivial(self, case, impl):
+        if case.startswith("P:"):
+            return impl.startswith("PRINT ")
         return impl.count("@") >= 2
 
     def kind(self, case):
+        if case.startswith("P:"):
+            return "literal printed"
         n = len(case) // 2
         return "bytes=%s" % ("1-8" if n <= 8 else ("9-32" if n <= 32 else "33+"))
 
